@@ -371,6 +371,10 @@ def regular_points(run):
             r = rnd(rng, 3.0, 8.0, 3)
             if pfo.buck(A, rho, C)(r) < 0:
                 cases.append(("pow(as.buck %r %r %r, as.constant %g) where the base is negative" % (A, rho, C, n), f, r))
+        # (3) a base that is exactly ZERO at the point, exponent a constant >= 1: (r - c)**n is differentiable at r = c (a table row can fall on it)
+        c = float(rng.randint(1, 6)) / 2
+        for n in (1.0, 2.0, 3.0):
+            cases.append(("pow(as.polynomial %r 1.0, as.constant %g) where the base is zero" % (-c, n), ap.pow(pfo.polynomial(-c, 1.0), pfo.constant(n)), c))
     nb = 0
     for what, f, r in cases:
         run.case(key=("regular-point", what, r), kind="oracle/regular-point")
